@@ -215,6 +215,16 @@ def gen_case(rng):
                         else:
                             xl[i] -= 0.5 * short[i]
                             xu[i] += 0.5 * short[i]
+    if scaling and xl is not None and rng.uniform() < 0.25:
+        # with internal scaling every finite box is legal, however narrow in the user's units (the scaled gap is 1 >= 2*rhobeg)
+        j = int(rng.integers(0, n))
+        wj = float(10.0 ** rng.uniform(-2.0, -0.8))
+        cj = float(min(max(x0[j], xl[j]), xu[j]))
+        old_l, old_u = float(xl[j]), float(xu[j])
+        xl[j], xu[j] = cj - 0.5 * wj, cj + 0.5 * wj
+        # the solver works on A*diag(xu - xl): keep that matrix inside the property's "moderate conditioning" too
+        if np.linalg.cond(A * (xu - xl)[None, :]) > 1e3:
+            xl[j], xu[j] = old_l, old_u
     return dict(A=A, b=b, x0=x0, xl=xl, xu=xu, npt=npt, scaling=scaling, kind=kind, cond=cond, smax=smax, noise=noise, dist=dist,
                 np_seed=int(rng.integers(0, 2 ** 31 - 1)))
 
